@@ -39,6 +39,7 @@ def run(ctx, chk):
     chk.rule("K8", "the worker's epoll set is changed by the control path's registration update only, which adds a ring exactly when it is started and enabled and removes it otherwise (C11/T3)")
     c11.run_on(fb, Renamed(chk, {"T1": "K5", "T2": "K6", "T4": ("K7", lambda k: "consume-only-when-active" in k),
                                  "T3": "K8"}))
+    k18(fb, chk)
     from . import xlist
     xlist.apply("C12", fb, chk)
     n = lambda r: len([i for i in chk.instances if i[0] == r])
@@ -193,3 +194,38 @@ def run_on(fb, chk, tag=""):
               "in %s the ring lock is released when read_kick returns and the backend's handle_event runs outside it: a control message that "
               "disables or stops the ring (state change, epoll update, reply) can complete between the gate and the dispatch, so the handler "
               "is entered for the ring after the reply was sent" % he.short, he.loc())
+
+
+# ---------------------------------------------------------------------------- K18
+
+def k18(fb, chk, tag=""):
+    """read_kick's answer IS the gate: it reports `true` (dispatch) only when the ring was enabled under the lock, `false` when
+    it was not (the worker then leaves the event pending and does not call the backend)."""
+    chk.rule("K18", "read_kick returns Ok(true) only on paths where the ring was enabled, Ok(false) where it was not")
+    fs = [f for f in fb.find(name="read_kick", self_adt="VringState") if not f.trait]
+    if len(fs) != 1:
+        chk.anchor_missing("K18", tag + "VringState::read_kick")
+        return
+    f = fs[0]
+    from vlint.paths import Summariser, ret_okness
+    outs, sym = Summariser(fb, no_inline=lambda g: True).paths(f)
+    probs = set()
+    n = 0
+    for o in outs:
+        if o.ret is None or ret_okness(o.ret) is not True:
+            continue
+        r = o.ret
+        val = r[3][0][1] if r[0] == "agg" and r[3] else None
+        en = None
+        for a in o.atoms:
+            if a[0] in ("true", "false") and isinstance(a[1], tuple) and any(x[0] == "field" and x[2] == "enabled" for x in subterms(a[1])):
+                en = a[0] == "true"
+        n += 1
+        if val is None or val[0] != "const":
+            continue
+        if bool(val[1]) and en is not True:
+            probs.add("returns Ok(true) on a path where the ring is %s" % ("disabled" if en is False else "not known to be enabled"))
+        if not bool(val[1]) and en is True:
+            probs.add("returns Ok(false) although the ring is enabled")
+    chk.check(n >= 2 and not probs, "K18", tag + "read_kick:result", "Ok(true) <=> enabled (%d paths)" % n,
+              "VringState::read_kick %s: a kick of a disabled ring is dispatched (or an enabled ring's kick is dropped)" % "; ".join(sorted(probs)), f.loc())
